@@ -202,3 +202,21 @@ Example C03_example_quoted :
                (St [] [] [] 1 []) in
   snd res = [Done 1 0; Done 0 1] /\ quads (fst res) = [].
 Proof. vm_compute. auto. Qed.
+
+(* The WHERE result is a sequence: identical solutions (here from overlapping UNION branches and from
+   repeated VALUES rows) are instantiated one by one, each with its own fresh blank node. *)
+Example C03_example_duplicate_solutions :
+  let c n := TConst (Iri n) in
+  let res := run gwhere eval_gwhere gwhere_terms
+               [RText [] (InsertData [TQ (c 1) (c 5) (c 2) GDefault; TQ (c 1) (c 6) (c 2) GDefault]);
+                RText [] (InsertWhere [TQ (TBnode 1) (c 7) (TVar 1) GDefault]
+                            [[(SDefault, [(PConst (Iri 1), PConst (Iri 5), PVar 1)])];
+                             [(SDefault, [(PConst (Iri 1), PConst (Iri 6), PVar 1)])]]);
+                RText [] (InsertWhere [TQ (TBnode 1) (c 8) (TVar 1) GDefault]
+                            [[(SValues 1 [Iri 2; Iri 2; Iri 3], [])]])]
+               (St [] [] [] 1 []) in
+  snd res = [Done 2 0; Done 2 0; Done 3 0] /\
+  quads (fst res) = [(Iri 1, Iri 5, Iri 2, None); (Iri 1, Iri 6, Iri 2, None);
+                     (Bn 1 1, Iri 7, Iri 2, None); (Bn 2 1, Iri 7, Iri 2, None);
+                     (Bn 3 1, Iri 8, Iri 2, None); (Bn 4 1, Iri 8, Iri 2, None); (Bn 5 1, Iri 8, Iri 3, None)].
+Proof. vm_compute. auto. Qed.
